@@ -34,6 +34,11 @@ func ParseTime(value string) (Time, error) {
 	value = strings.TrimPrefix(value, "@T")
 	for _, l := range timeLayouts {
 		if t, err = time.Parse(l, value); err == nil {
+			// time.Parse reads a fraction of any length after the seconds even when the layout
+			// has none: such a value has sub-second precision.
+			if t.Nanosecond() != 0 && l == secondLayout {
+				l = millisecondLayout
+			}
 			return Time{t, layout(l)}, nil
 		}
 	}
@@ -64,6 +69,13 @@ func TimeFromProto(proto *dtpb.Time) Time {
 		l = millisecondLayout
 	case dtpb.Time_SECOND:
 		l = secondLayout
+	}
+	// The value carries nothing below its precision.
+	switch proto.Precision {
+	case dtpb.Time_MILLISECOND:
+		t = t.Truncate(time.Millisecond)
+	case dtpb.Time_SECOND:
+		t = t.Truncate(time.Second)
 	}
 	return Time{t, l}
 }
@@ -119,7 +131,7 @@ func (t Time) Equal(t2 Time) bool {
 
 // String formats the time as a time string.
 func (t Time) String() string {
-	return t.time.Format(string(t.l))
+	return t.time.Format(fractionLayout(string(t.l), t.time.Nanosecond()))
 }
 
 // Less returns true if the value of t is less than input.(Time).
